@@ -574,6 +574,33 @@ def roundtrip(model, m2, sigma, k, ctx):
             raise Violation(f'roundtrip:{what.split(":")[0]}', observed=(what, obs), expected=exp, detail=ctx)
 
 
+# canonical multi-step histories that are always run (both tiers) in addition to the generated ones:
+# shapes that need a specific long sequence (>= 10 compartments, CMT column + renumbering, logit
+# bioavailability, back and forth between library ADVANs and $DES)
+CANONICAL = [
+    ('pheno', [('set_first_order_absorption', 0, 0), ('set_transit_compartments', 5, 0), ('add_peripheral_compartment', 0, 0)]),
+    ('pheno', [('set_transit_compartments', 6, 0), ('add_peripheral_compartment', 0, 0), ('add_peripheral_compartment', 0, 0)]),
+    ('basic_oral_nm', [('set_transit_compartments', 5, 0), ('add_peripheral_compartment', 0, 0), ('set_michaelis_menten_elimination', 0, 0)]),
+    ('oral_cmt_nm', [('set_transit_compartments', 1, 0)]),
+    ('oral_cmt_nm', [('set_transit_compartments', 2, 0), ('add_peripheral_compartment', 0, 0)]),
+    ('oral_periph_cmt_nm', [('set_transit_compartments', 1, 0)]),
+    ('oral_periph_cmt_nm', [('set_transit_compartments', 3, 0), ('remove_peripheral_compartment', 0, 0)]),
+    ('oral_periph_cmt_nm', [('add_lag_time', 0, 0), ('set_transit_compartments', 1, 0)]),
+    ('basic_oral_nm', [('add_bioavailability', 1, 0)]),
+    ('pheno', [('add_bioavailability', 1, 0), ('set_first_order_absorption', 0, 0)]),
+    ('basic_iv_nm', [('set_michaelis_menten_elimination', 0, 0), ('set_first_order_elimination', 0, 0), ('add_peripheral_compartment', 0, 0)]),
+    ('mox2', [('add_peripheral_compartment', 0, 0), ('add_peripheral_compartment', 0, 0), ('remove_peripheral_compartment', 0, 0)]),
+    ('pheno_advan3', [('set_first_order_absorption', 0, 0), ('add_lag_time', 0, 0)]),
+    ('mox_2comp', [('set_zero_order_elimination', 0, 0), ('set_first_order_absorption', 0, 0)]),
+]
+
+
+def canonical_specs(tier):
+    names = [n for n, _ in table()]
+    for start, steps in CANONICAL:
+        yield dict(start=STARTS.index(start), steps=[[names.index(fn), a, b] for fn, a, b in steps], k=3)
+
+
 SUBCHECKS = [
-    SubCheck('history', lambda: SPEC, run_case, quick=320, thorough=6000, quick_time=200, thorough_time=3000),
+    SubCheck('history', lambda: SPEC, run_case, quick=320, thorough=6000, quick_time=200, thorough_time=3000, enumerate=canonical_specs),
 ]
